@@ -440,3 +440,125 @@ Proof.
   destruct (sub64 reward real <? 0) eqn:E; [discriminate |].
   apply Z.ltb_ge in E. inversion H. subst. exact E.
 Qed.
+
+(* ------------------------------------------------------------------ structural hypotheses *)
+
+(* [sane_loops] from hypotheses on the inputs and three facts about the two
+   rounding functions (pure integer / ordering reasoning):
+     0 <= ibcr <= B1;  share is non-negative and at most B2 on [0, T];
+     every recorded vote lies in [0, T]; no arbiter on a panicking path;
+     (arbiters + abnormal seats) * B1 + (arbiters + candidates) * B2 fits int64. *)
+Section Structural.
+  Variable ibcr : Z.
+  Variable share : Z -> Z.
+  Variable s : st.
+  Variable v : version.
+  Variables T B1 B2 : Z.
+  Hypothesis HT : 0 <= T.
+  Hypothesis Hibcr : 0 <= ibcr <= B1.
+  Hypothesis Hshare : forall x, 0 <= x <= T -> 0 <= share x <= B2.
+  Hypothesis Hvotes : forall k x, In (k, x) (s_votes s) -> 0 <= x <= T.
+  Hypothesis Hnopanic : forall a, In a (s_arbs s) -> exact_of ibcr share s v a <> None.
+  Hypothesis Hfits :
+    (Z.of_nat (length (s_arbs s)) + Z.of_nat (n_extra s v)) * B1 +
+    (Z.of_nat (length (s_arbs s)) + Z.of_nat (length (s_cands s))) * B2 <= max_int64.
+
+  Lemma lookup0_range : forall k, 0 <= lookup0 k (s_votes s) <= T.
+  Proof.
+    intros k. induction (s_votes s) as [| [k' x] m IH]. cbn. lia.
+    cbn [lookup0]. destruct (k =? k').
+    - apply (Hvotes k' x). left. reflexivity.
+    - apply IH. intros k1 x1 H1. apply (Hvotes k1 x1). right. exact H1.
+  Qed.
+
+  Lemma vshare_range : forall k, 0 <= vshare share s k <= B2.
+  Proof. intros k. unfold vshare. apply Hshare. apply lookup0_range. Qed.
+
+  Lemma B2_nonneg : 0 <= B2.
+  Proof. pose proof (Hshare 0 ltac:(lia)). lia. Qed.
+
+  Lemma exact_range : forall a k r asg,
+    exact_of ibcr share s v a = Some (k, r, asg) -> ibcr <= r <= B1 + B2.
+  Proof.
+    intros a k r asg H. pose proof B2_nonneg as HB.
+    assert (Hv : forall h, ibcr <= ibcr + vshare share s h <= B1 + B2)
+      by (intros h; pose proof (vshare_range h); lia).
+    unfold exact_of in H. destruct v.
+    - destruct (a_in_map a); inversion H; subst; [lia | apply Hv].
+    - destruct (a_in_map a); inversion H; subst; [lia | apply Hv].
+    - destruct (a_in_map a); inversion H; subst; [lia | apply Hv].
+    - destruct (a_crc a).
+      + destruct (negb (a_elected a)). inversion H; subst; lia.
+        destruct (a_nodpk a).
+        * destruct (a_prodhash a); [| discriminate]. inversion H; subst. apply Hv.
+        * inversion H; subst; lia.
+      + inversion H; subst. apply Hv.
+  Qed.
+
+  Lemma arbs_ok_all : forall l, (forall a, In a l -> In a (s_arbs s)) ->
+    forallb (arb_ok ibcr share s v) l = true /\
+    sum_arbs ibcr share s v l <= Z.of_nat (length l) * (B1 + B2).
+  Proof.
+    induction l as [| a l IH]; intros Hin. cbn. split. reflexivity. lia.
+    assert (Ha : In a (s_arbs s)) by (apply Hin; left; reflexivity).
+    destruct (IH (fun b Hb => Hin b (or_intror Hb))) as [IH1 IH2].
+    cbn [forallb sum_arbs length]. unfold arb_ok.
+    destruct (exact_of ibcr share s v a) as [[[k r] asg] |] eqn:E.
+    - pose proof (exact_range a k r asg E) as Hr. split.
+      + apply andb_true_intro. split. apply Z.leb_le. lia. exact IH1.
+      + rewrite Nat2Z.inj_succ. lia.
+    - exfalso. exact (Hnopanic a Ha E).
+  Qed.
+
+  Lemma cands_ok_all : forall l,
+    forallb (fun c => 0 <=? vshare share s c) l = true /\
+    sum_cands share s l <= Z.of_nat (length l) * B2.
+  Proof.
+    induction l as [| c l [IH1 IH2]]. cbn. split. reflexivity. lia.
+    pose proof (vshare_range c) as Hc.
+    cbn [forallb sum_cands length]. split.
+    - apply andb_true_intro. split. apply Z.leb_le. lia. exact IH1.
+    - rewrite Nat2Z.inj_succ. lia.
+  Qed.
+
+  Lemma structural_sane_loops : sane_loops ibcr share s v = true.
+  Proof.
+    unfold sane_loops.
+    destruct (arbs_ok_all (s_arbs s) (fun a H => H)) as [A1 A2].
+    destruct (cands_ok_all (s_cands s)) as [C1 C2].
+    pose proof B2_nonneg as HB.
+    rewrite A1, C1. rewrite !andb_true_r.
+    apply andb_true_intro. split. apply Z.leb_le; lia.
+    apply Z.leb_le. unfold paid_loops, extra_total.
+    assert (Z.of_nat (n_extra s v) * ibcr <= Z.of_nat (n_extra s v) * B1)
+      by (apply Z.mul_le_mono_nonneg_l; lia).
+    set (na := Z.of_nat (length (s_arbs s))) in *. set (nc := Z.of_nat (length (s_cands s))) in *.
+    set (ne := Z.of_nat (n_extra s v)) in *.
+    assert (0 <= na) by (unfold na; lia). assert (0 <= nc) by (unfold nc; lia).
+    nia.
+  Qed.
+End Structural.
+
+(* distribution theorem under structural hypotheses (any rounding functions) *)
+Lemma structural_ok : forall (ibcr : Z) (share : Z -> Z) s v reward T B1 B2 m change,
+  0 <= reward <= max_int64 -> 0 <= T -> 0 <= ibcr <= B1 ->
+  (forall x, 0 <= x <= T -> 0 <= share x <= B2) ->
+  (forall k x, In (k, x) (s_votes s) -> 0 <= x <= T) ->
+  (forall a, In a (s_arbs s) -> exact_of ibcr share s v a <> None) ->
+  (Z.of_nat (length (s_arbs s)) + Z.of_nat (n_extra s v)) * B1 +
+  (Z.of_nat (length (s_arbs s)) + Z.of_nat (length (s_cands s))) * B2 <= max_int64 ->
+  guard reward (dist_version ibcr share s v reward) = ROk m change ->
+  0 <= change /\
+  paid ibcr share s v reward = reward - change /\
+  0 <= paid ibcr share s v reward /\
+  (forall k x, In (k, x) m -> 0 <= x) /\
+  sum_map m <= credited ibcr share s v reward.
+Proof.
+  intros ibcr share s v reward T B1 B2 m change Hr HT Hi Hs Hv Hp Hf Hg.
+  assert (Hsane : sane ibcr share s v reward = true).
+  { unfold sane. destruct Hr as [Hr0 Hr1].
+    apply andb_true_intro. split. apply andb_true_intro. split; apply Z.leb_le; assumption.
+    rewrite (structural_sane_loops ibcr share s v T B1 B2 HT Hi Hs Hv Hp Hf). apply orb_true_r. }
+  destruct (guard_ok ibcr share s v reward m change Hg Hsane) as (A & B & C & D & E & _).
+  repeat split; assumption.
+Qed.
